@@ -47,6 +47,8 @@ def _new_item():
     from .structure import new_item
     new_item()
 
+# replays whose state differed from the recorded one, over all explorations of this process
+MISMATCHES = {"count": 0, "examples": []}
 _SYS = None          # set before the worker pool is forked
 _SEED = 0
 _CHECK_ONLY = False  # final level of a depth-bounded run: evaluate state invariants, do not expand
@@ -84,14 +86,19 @@ def _expand_chunk(entries):
     rebuild = getattr(system, "rebuild", True)
     state_check = getattr(system, "state_check", None)
     npruned = 0
+    nmismatch = 0
+    mismatch_examples = []
     for hist, dg in entries:
         _new_item()
         w0 = build(system, hist)
         if _digest(system, w0) != dg:
-            raise HarnessError(
-                f"replaying {hist!r} from scratch does not give the state that was "
-                "recorded for it (non-determinism or a copy that is not faithful)"
-            )
+            # Replaying the history did not give the state recorded when it was discovered: the
+            # library (or the harness) is not a deterministic function of the history.  The replayed
+            # world is still a genuinely reachable state, so exploration continues from it; the
+            # mismatch is counted and, unless the run reports a violation anyway, ends it with exit 2.
+            nmismatch += 1
+            if len(mismatch_examples) < 3:
+                mismatch_examples.append(list(hist))
         nvalid += 1
         if state_check is not None and hist:
             # state invariant: evaluated exactly once per state, when the state is expanded
@@ -146,7 +153,7 @@ def _expand_chunk(entries):
                 succ[d] = hist + (op,)
     if rebuild:
         nvalid += ntrans          # every transition was executed on a world replayed from scratch
-    return succ, viols, ntrans, nvalid, nnontriv, outcomes, npruned
+    return succ, viols, ntrans, nvalid, nnontriv, outcomes, npruned, nmismatch, mismatch_examples
 
 
 class Result:
@@ -170,6 +177,10 @@ def explore(system, *, seed=0, workers=None, max_states=None, time_cap=None, log
     if time_cap is None and os.environ.get("EGMC_POOL_CAP_S"):
         time_cap = float(os.environ["EGMC_POOL_CAP_S"])      # per-pool budget (set for the thorough tier)
     t0 = time.time()
+    if os.environ.get("EGMC_DEADLINE"):
+        # whole-run budget (set by main): never explore past it, whatever the per-pool cap says
+        left = max(1.0, float(os.environ["EGMC_DEADLINE"]) - t0)
+        time_cap = left if time_cap is None else min(time_cap, left)
     res = Result()
     res.viols = {}
     w0 = system.initial()
@@ -224,7 +235,10 @@ def explore(system, *, seed=0, workers=None, max_states=None, time_cap=None, log
                 chunks = [frontier[i:i + n] for i in range(0, len(frontier), n)]
                 results = pool.imap_unordered(_expand_chunk, chunks)
             nxt = []
-            for succ, viols, ntrans, nvalid, nnontriv, outcomes, npruned in results:
+            for succ, viols, ntrans, nvalid, nnontriv, outcomes, npruned, nmis, mis_ex in results:
+                if nmis:
+                    MISMATCHES["count"] += nmis
+                    MISMATCHES["examples"] = (MISMATCHES["examples"] + mis_ex)[:3]
                 if time_cap is not None and time.time() - t0 > time_cap and res.exhaustive:
                     res.exhaustive = False
                     res.cap = (f"time cap {time_cap}s hit while expanding depth {res.depth} "
